@@ -135,6 +135,8 @@ class TCPTransport(KNXIPTransport):
 
     async def connect(self) -> None:
         """Connect TCP socket."""
+        # a cut-off frame of an earlier connection is not part of this stream
+        self._buffer = b""
         tcp_transport_factory = TCPTransport.TCPTransportFactory(
             data_received_callback=self.data_received_callback,
             connection_lost_callback=self._connection_lost,
